@@ -63,6 +63,10 @@ type faultSpec struct {
 	RsDelete    []string `json:"rs_delete"`    // replica-set deletions fail
 	RsCreate    bool     `json:"rs_create"`    // replica-set creation fails
 	ListFail    []string `json:"list_fail"`    // List calls for these kinds fail (reads: nothing is recorded)
+	// MidEdit: a user edit of the reconciled ExtendedDaemonSet ("image:img:2", ...) that lands in the middle of the
+	// reconcile, right after its List of the replica sets. The controller works on the copy it read before; its later
+	// writes on the ExtendedDaemonSet itself meet the API server's optimistic concurrency: refused with a conflict.
+	MidEdit string `json:"mid_edit"`
 	Lost        bool     `json:"lost"`         // failing calls are applied, then the error is returned
 	StopAt      int      `json:"stop_at"`      // >0: the process stops (panic) before the k-th write of this op
 	StopAfter   int      `json:"stop_after"`   // >0: the process stops right after the k-th write of this op
@@ -192,6 +196,23 @@ type world struct {
 	// of settings are therefore re-decoded from the text (see verbatim).
 	rawMu          sync.Mutex
 	rawSettingSpec map[string]json.RawMessage
+	midDone        bool   // the fault MidEdit was applied in this op
+	curOp          opSpec // the op being run
+}
+
+// midEdit applies the fault MidEdit once per reconcile of the ExtendedDaemonSet controller.
+func (w *world) midEdit() {
+	w.mu.Lock()
+	f := w.faults
+	if !w.inReconcile || f == nil || f.MidEdit == "" || w.midDone || w.curOp.Ctrl != "eds" {
+		w.mu.Unlock()
+
+		return
+	}
+	w.midDone = true
+	op := opSpec{Kind: "ExtendedDaemonSet", Ns: w.curOp.Ns, Name: w.curOp.Name, Cmd: f.MidEdit}
+	w.mu.Unlock()
+	_ = w.edit(op)
 }
 
 func (w *world) listFails(list client.ObjectList) bool {
@@ -472,6 +493,12 @@ func (w *world) shouldFail(verb string, obj client.Object) bool {
 			return f.RsCreate
 		}
 	case *v1alpha1.ExtendedDaemonSet:
+		w.mu.Lock()
+		conflict := w.midDone
+		w.mu.Unlock()
+		if conflict && (verb == "status_update" || verb == "update") {
+			return true
+		}
 		switch verb {
 		case "status_update":
 			return f.Status
@@ -517,6 +544,9 @@ func (w *world) build(objs []client.Object) {
 				return errInjected
 			}
 			err := c.List(ctx, list, opts...)
+			if _, ok := list.(*v1alpha1.ExtendedDaemonSetReplicaSetList); ok && err == nil {
+				w.midEdit()
+			}
 			if sl, ok := list.(*v1alpha1.ExtendedDaemonsetSettingList); ok && err == nil {
 				for i := range sl.Items {
 					w.verbatim(&sl.Items[i])
@@ -829,6 +859,8 @@ func (w *world) runOp(op opSpec) (so stepOut) {
 	w.calls = nil
 	w.faults = op.Faults
 	w.writes = 0
+	w.midDone = false
+	w.curOp = op
 	ctx := context.TODO()
 	so.Now = time.Now().UnixNano()
 	switch op.Op {
